@@ -179,7 +179,7 @@ func (s *Session) verifyFunc(fn *ssa.Function, c *Contract) (vc *FnVC, err error
 				hit = true
 			}
 		}
-		if !hit {
+		if !hit && !cr.Optional {
 			// not an error: on a changed tree the call may legitimately be gone (and whatever replaced it is judged by the
 			// other obligations and the sweeps).  tools/run_all.sh refuses such a line on the unchanged tree, where it
 			// means a misspelt callee.
